@@ -5,9 +5,17 @@ open Util
 
 let zs (x : z) : string = string_of_int (int_of_z x)
 
+(* datagram bytes: hex up to 48 bytes, else the 4 header bytes in hex + "#len:fnv1a32" *)
+let dgram_bytes (b : z list) : string =
+  if List.length b > 48 then
+    (match b with
+     | a :: b1 :: c :: d :: _ -> hex_of_bytes [a; b1; c; d] ^ hex_of_bytes b
+     | _ -> hex_of_bytes b)
+  else hex_of_bytes b
+
 let show_out (o : rt_out) : string option =
   match o with
-  | RoTx (t, _, s, b) -> Some (Printf.sprintf "tx:%s:%s:%s" (zs t) (zs s) (hex_of_bytes b))
+  | RoTx (t, _, s, b) -> Some (Printf.sprintf "tx:%s:%s:%s" (zs t) (zs s) (dgram_bytes b))
   | RoSent m -> Some ("s:" ^ zs m)
   | RoNack (t, _, s, r, m, _, _) -> Some (Printf.sprintf "nk:%s:%s:%s:%s:1" (zs t) (zs s) (zs r) (zs m))
   | RoNackNoPdu (t, s, r, m) -> Some (Printf.sprintf "nk:%s:%s:%s:%s:0" (zs t) (zs s) (zs r) (zs m))
@@ -32,22 +40,47 @@ let c06 toks =
               take_cfg (k + 1) tl
           | _ -> failwith "c06 cfg" in
       let evtoks = take_cfg 0 rest in
-      let rec evs toks =
+      let st = ref (rt_init Z0) in
+      let outs = ref [] in
+      let last_tick = ref (-1) and last_wait = ref 0 in
+      let evi = ref (-1) in
+      let step ev =
+        let (st', o) = rt_step !st ev in
+        st := st';
+        List.iter (fun x ->
+          (match x with
+           | RoWait (t, w, _) -> last_tick := int_of_z t; last_wait := int_of_z w
+           | _ -> ());
+          match show_out x with
+          | Some s -> outs := (string_of_int !evi ^ "." ^ s) :: !outs
+          | None -> ()) o in
+      let sess s = z_of_int (int_of_string s mod ns) in
+      let rec go toks =
+        incr evi;
         match toks with
-        | [] -> []
-        | "A" :: dt :: tl -> RtAdvance (zi dt) :: evs tl
+        | [] -> ()
+        | "A" :: dt :: tl -> step (RtAdvance (zi dt)); go tl
+        | "W" :: k :: tl ->
+            (if !last_tick >= 0 then begin
+               let target = !last_tick + !last_wait + int_of_string k in
+               let now = int_of_z (!st).rs_now in
+               if target > now then step (RtAdvance (z_of_int (target - now)))
+             end);
+            go tl
         | "S" :: s :: mid :: code :: tok :: pay :: r :: tl ->
-            let s = int_of_string s mod ns in
-            RtSend (z_of_int s, zi mid, rt_con_bytes (zi code) (zi mid) (bytes_of_tok tok) (bytes_of_tok pay),
-                    cfgs.(s), zi r) :: evs tl
-        | "T" :: tl -> RtTick :: evs tl
-        | "K" :: s :: mid :: tl -> RtAck (z_of_int (int_of_string s mod ns), zi mid) :: evs tl
-        | "P" :: s :: mid :: _tok :: tl -> RtAck (z_of_int (int_of_string s mod ns), zi mid) :: evs tl
-        | "R" :: s :: mid :: tl -> RtRst (z_of_int (int_of_string s mod ns), zi mid) :: evs tl
-        | "Q" :: tl -> RtDump :: evs tl
+            let si = int_of_string s mod ns in
+            step (RtSend (z_of_int si, zi mid,
+                          rt_con_bytes (zi code) (zi mid) (bytes_of_tok tok) (bytes_of_tok pay),
+                          cfgs.(si), zi r));
+            go tl
+        | "T" :: tl -> step RtTick; go tl
+        | "K" :: s :: mid :: tl -> step (RtAck (sess s, zi mid)); go tl
+        | "P" :: s :: mid :: _tok :: tl -> step (RtAck (sess s, zi mid)); go tl
+        | "R" :: s :: mid :: tl -> step (RtRst (sess s, zi mid)); go tl
+        | "Q" :: tl -> step RtDump; go tl
         | _ -> failwith "c06 event" in
-      let (_, outs) = rt_run (rt_init Z0) (evs evtoks) in
-      let items = List.filter_map show_out outs in
+      go evtoks;
+      let items = List.rev !outs in
       if items = [] then "-" else String.concat " " items
   | _ -> failwith "c06 args"
 
